@@ -145,6 +145,9 @@ ChooseLaw(n, k) == LET cs == ChooseSeq(n, k) IN
 -----------------------------------------------------------------------------
 \* DKG cross-check (assembleThresholdPublicKey + the test in KeyGen): the n revealed keys are interpolated at zero over EVERY
 \* t-subset chooseKoutOfN enumerates; KeyGen fails iff more than one distinct value comes out.
+\* For t = n there is exactly one t-subset, so the check accepts every key vector: indeed ANY n values lie on a polynomial of
+\* degree < n = t, so "off the polynomial" is not even observable from the public keys.  That is inherent to the check, not a
+\* defect (the deviating party only invalidates its own partial signatures, and for t = n it is needed for every signature anyway).
 CrossValues(keys, n, t, q)    == LET cs == ChooseSeq(n, t) IN {Reconstruct(keys, cs[m], q) : m \in DOMAIN cs}
 CrossValuesTab(keys, n, t, lam, q) == LET cs == ChooseSeq(n, t) IN {ReconstructTab(keys, ToSet(cs[m]), lam, q) : m \in DOMAIN cs}
 Accepts(vals) == Cardinality(vals) <= 1
